@@ -304,6 +304,9 @@ LIST_TOKENS = [
     lst(lst(d(1), d(2)), lst(d(3), d(4))), lst(d(1), s("two"), ("d", b"3.5"), ("n",), ("t",)), lst(d(1), d(2), d(3), d(4), d(5)),
     lst(("b", b"ab"), ("b", b"")), lst(mp(u("a"), d(1))), lst(("i", 255), ("i", 256)), lst(d(7), d(7)),
     lst(("D", 2020, 1, 2, True), ("T", 1, 2, 3, [], False)), lst(("g", GUID)), lst(lst(lst(d(1)))),
+    # longer than the 16 elements a container reserves on the word of the wire: grown while decoding
+    lst(*[d(i % 10) for i in range(16)]), lst(*[("i", i) for i in range(17)]), lst(*[("i", 100 + i) for i in range(40)]),
+    lst(*[s("e%d" % i) for i in range(33)]), lst(*[lst(d(i % 10)) for i in range(20)]),
 ]
 LIST_TYPES = [Slice(INT), Slice(T("int8")), Slice(T("uint8")), Slice(STR), Slice(IFACE), Slice(F64), Slice(T("bool")),
               Array(3, INT), Array(2, STR), Array(4, T("uint8")), Array(0, INT), Array(2, IFACE),
@@ -320,6 +323,7 @@ MAP_TOKENS = [
     mp(lst(), d(1)), mp(("b", b"k"), d(1)), mp(mp(), d(1)), mp(d(1), d(1), ("i", 1), d(2)), mp(u("a"), mp(u("b"), mp())),
     mp(s("a"), ("n",), s("b"), d(2)), mp(d(5), d(1), s("5"), d(2)), mp(("D", 2020, 1, 2, True), d(1)), mp(("g", GUID), d(1)),
     mp(s("x"), d(1), s("x"), d(2)), mp(("i", 300), d(1), ("i", 44), d(2)),
+    mp(*[x for i in range(20) for x in (("i", i), s("v%d" % i))]),
 ]
 MAP_TYPES = [Map(STR, INT), Map(INT, STR), Map(STR, IFACE), Map(IFACE, IFACE), Map(STR, STR), Map(T("int8"), INT), Map(F64, INT),
              Map(STR, Slice(INT)), Map(STR, Array(2, INT)), Map(STR, Ptr(INT)), Map(STR, Map(STR, IFACE)), Map(T("bool"), INT),
